@@ -628,6 +628,23 @@ func intRule(ctx *Ctx, r *Result, rule string) bool {
 				}
 				l, rr := t.Args[0], t.Args[1]
 				switch {
+				case l.Op == "const" && rr.Op == "const":
+					// both sides known (the value was replaced by a constant on
+					// this path): the comparison decides itself
+					lc, e1 := strconv.ParseInt(l.Name, 10, 64)
+					rc, e2 := strconv.ParseInt(rr.Name, 10, 64)
+					if e1 != nil || e2 != nil {
+						undec = "non-integer constants in " + t.Key()
+						break
+					}
+					val := lc == rc
+					if t.Name == "<" {
+						val = lc < rc
+					}
+					if val != a.Pos {
+						// contradictory path: satisfied by no value
+						pathCons[i] = append(pathCons[i], cons{"==", 1 << 50, false, true})
+					}
 				case l.Key() == "param:"+par && rr.Op == "const":
 					c, err := strconv.ParseInt(rr.Name, 10, 64)
 					if err != nil {
@@ -746,6 +763,12 @@ func intTag(t *Term, recv string) string {
 		}
 		return "[" + strings.Join(as, ",") + "]"
 	case "call", "bin", "conv", "un":
+		// an integer conversion of a small non-negative constant is that constant
+		if t.Op == "conv" && len(t.Args) == 1 && t.Args[0].Op == "const" {
+			if c, err := strconv.ParseInt(t.Args[0].Name, 10, 64); err == nil && c >= 0 && c < 128 {
+				return t.Args[0].Name
+			}
+		}
 		var as []string
 		for _, a := range t.Args {
 			as = append(as, intTag(a, recv))
